@@ -90,7 +90,9 @@ Applicable(name, l, r) ==
          IF l.k \in LazyInverseKinds THEN OperatorIs(l, r)
          ELSE r.k \in LazyInverseKinds /\ OperatorIs(r, l)
     [] name = "MoveAxisInverseRule" ->
-         l.k = "mvax" /\ r.k = "mvax" /\ l.p[1] = r.p[2] /\ l.p[2] = r.p[1]
+         l.k = "mvax" /\ r.k = "mvax" /\ Len(l.p) = Len(r.p)
+         /\ SubSeq(l.p, 1, MoveK(l.p)) = SubSeq(r.p, MoveK(r.p) + 1, Len(r.p))
+         /\ SubSeq(l.p, MoveK(l.p) + 1, Len(l.p)) = SubSeq(r.p, 1, MoveK(r.p))
     [] name = "ReshapeInverseRule" ->
          \/ l.k \in ReshapeKinds /\ r.k = "RT" /\ OperatorIs(r, l)
          \/ l.k = "RT" /\ r.k \in ReshapeKinds /\ OperatorIs(l, r)
@@ -224,7 +226,7 @@ Inverse(t) ==
   CASE IsErr(t) -> ErrT
     [] t.k = "id" -> t
     [] t.k = "hom" -> Hom(t.p[2], t.p[1], t.s)
-    [] t.k = "diag" -> DInvOf(t)
+    [] t.k \in {"diag", "diagq"} -> DInvOf(t)
     [] t.k \in LazyInverseKinds -> t.ch[1]
     [] t.k = "rot" -> RotTOf(t)
     [] t.k = "mvax" -> Transpose(t)
